@@ -685,7 +685,7 @@ func (e *FEnc) evalCall(env *Env, x *Ex) (*Val, error) {
 		if err != nil {
 			return nil, err
 		}
-		_, ty, err := e.sortOfName(env, exName(x.Args[1]))
+		_, ty, err := e.sortOfName(env, typeExName(x.Args[1]))
 		if err != nil {
 			return nil, err
 		}
@@ -703,7 +703,7 @@ func (e *FEnc) evalCall(env *Env, x *Ex) (*Val, error) {
 		if err != nil {
 			return nil, err
 		}
-		_, ty, err := e.sortOfName(env, exName(x.Args[1]))
+		_, ty, err := e.sortOfName(env, typeExName(x.Args[1]))
 		if err != nil {
 			return nil, err
 		}
@@ -893,4 +893,12 @@ func (e *FEnc) evalMethod(env *Env, recv *Val, name string, args []*Val) (*Val, 
 		tup.Tup = append(tup.Tup, mk(i))
 	}
 	return tup, nil
+}
+
+// typeExName renders a type written as an expression (*pkg.T, pkg.T, T).
+func typeExName(x *Ex) string {
+	if x.Op == "deref" {
+		return "*" + typeExName(x.Args[0])
+	}
+	return exName(x)
 }
